@@ -1,12 +1,88 @@
 package main
 
 import (
+	"flag"
 	"fmt"
-	"golang.org/x/tools/go/packages"
+	"os"
+	"sort"
+	"strings"
+	"time"
+
+	"dsvc/internal/vc"
 )
 
 func main() {
-	cfg := &packages.Config{Mode: packages.LoadAllSyntax, Dir: "/repo", BuildFlags: []string{"-tags=verif"}}
-	pkgs, err := packages.Load(cfg, ".")
-	fmt.Println(len(pkgs), err)
+	if len(os.Args) < 2 {
+		fmt.Fprintln(os.Stderr, "usage: dsvc <check|debug|list> ...")
+		os.Exit(2)
+	}
+	switch os.Args[1] {
+	case "debug":
+		debugCmd(os.Args[2:])
+	case "check":
+		os.Exit(vc.CheckCmd(os.Args[2:]))
+	case "lock":
+		os.Exit(vc.LockCmd(os.Args[2:]))
+	case "effects":
+		os.Exit(vc.EffectsCmd(os.Args[2:]))
+	default:
+		fmt.Fprintln(os.Stderr, "unknown command", os.Args[1])
+		os.Exit(2)
+	}
+}
+
+func debugCmd(args []string) {
+	fs := flag.NewFlagSet("debug", flag.ExitOnError)
+	secs := fs.Int("t", 10, "solver timeout")
+	keep := fs.String("keep", "", "directory to keep SMT files in")
+	only := fs.String("only", "", "substring filter on obligation names")
+	fs.Parse(args)
+	t0 := time.Now()
+	prog, err := vc.LoadProgram()
+	if err != nil {
+		fmt.Fprintln(os.Stderr, err)
+		os.Exit(2)
+	}
+	fmt.Printf("loaded in %.1fs\n", time.Since(t0).Seconds())
+	e := vc.NewEngine(prog)
+	e.Prepare()
+	keys := fs.Args()
+	if len(keys) == 0 {
+		keys = append(keys, prog.CF.Order...)
+	}
+	for _, k := range keys {
+		e.VerifyFunc(k)
+	}
+	for k, r := range e.Unsupported {
+		fmt.Printf("OUTSIDE REACH %s: %s\n", k, strings.Join(r, "; "))
+	}
+	obls := e.Obls
+	if *only != "" {
+		var f []*vc.Obligation
+		for _, o := range obls {
+			if strings.Contains(o.Name, *only) {
+				f = append(f, o)
+			}
+		}
+		obls = f
+	}
+	fmt.Printf("%d obligations generated in %.1fs\n", len(obls), time.Since(t0).Seconds())
+	e.SolveAll(obls, *secs, 16, false, *keep)
+	sort.SliceStable(obls, func(i, j int) bool { return obls[i].Name < obls[j].Name })
+	cnt := map[string]int{}
+	for _, o := range obls {
+		st := o.Status
+		if o.Canary {
+			if st == "proved" {
+				st = "VACUOUS"
+			} else {
+				st = "canary-ok"
+			}
+		}
+		cnt[st]++
+		if st != "proved" && st != "canary-ok" {
+			fmt.Printf("%-10s %-70s %s %.2fs %s [%s]\n", st, o.Name, o.Solver, o.Secs, o.Pos, o.Desc)
+		}
+	}
+	fmt.Println(cnt, fmt.Sprintf("total %.1fs", time.Since(t0).Seconds()))
 }
